@@ -23,6 +23,8 @@ let vs_sexp v = L (List.map (fun (r, a) -> L [a_z r; si_sexp a]) v)
 let handle = function
   | L [A "add"; a; b] -> res_sexp si_sexp (si_add (si_of a) (si_of b))
   | L [A "sub"; a; b] -> res_sexp si_sexp (si_sub (si_of a) (si_of b))
+  | L [A "join"; A smart; a; b] -> res_sexp si_sexp (si_join (smart = "1") (si_of a) (si_of b))
+  | L [A "lub"; L l] -> res_sexp si_sexp (si_lub (List.map si_of l))
   | L [A "union"; a; b] -> res_sexp si_sexp (si_union (si_of a) (si_of b))
   | L [A "ucmp"; A op; a; b] ->
     let f = (match op with "ULT" -> si_ult | "ULE" -> si_ule | "UGT" -> si_ugt | "UGE" -> si_uge
